@@ -159,7 +159,7 @@ def run(res, tier, seed):
     # replayed against AccessControlSet::denied; its events join the monitored trace
     acfg = os.path.join(wd, "G_acs.cfg")
     with open(acfg, "w") as f:
-        f.write(f"SPECIFICATION Spec\nCONSTANTS\n  MaxDeny = {3 if thorough else 2}\n  MaxAllow = {2 if thorough else 1}\nINVARIANT Emit\nCHECK_DEADLOCK FALSE\n")
+        f.write(f"SPECIFICATION Spec\nCONSTANTS\n  MaxDeny = {3 if thorough else 2}\n  MaxAllow = 1\nINVARIANT Emit\nCHECK_DEADLOCK FALSE\n")
     acases, ast = vlib.gen(os.path.join(vlib.SPEC, "Gen_Access.tla"), acfg, wd, workers=W, timeout=1500)
     res.states += ast["distinct"]
     res.transitions += ast["generated"]
